@@ -396,14 +396,16 @@ def control_library():
     k0 = np.diag([1.0, np.sqrt(1 - pdamp)]).astype(complex)
     k1 = np.array([[0, np.sqrt(pdamp)], [0, 0]], dtype=complex)
     damp = np.kron(k0, k0.conj()) + np.kron(k1, k1.conj())
-    return {"yrot": yrot, "reset": reset, "ampdamp": damp}
+    ux = np.array([[1, -1j], [-1j, 1]], dtype=complex) / np.sqrt(2)      # rotation by pi/2 about x
+    xrot = np.kron(ux, ux.conj())
+    return {"yrot": yrot, "reset": reset, "ampdamp": damp, "xrot": xrot}
 
 
 def add_controls(spec, rng):
     """ChainControl entries [site, step, post, matrix] on the qubit sites: pre and post, at the
     first, an interior and the last step, one stacked pair"""
     lib = control_library()
-    names = sorted(lib)
+    names = ["ampdamp", "reset", "yrot"]
     qubits = [j for j, d in enumerate(spec["dims"]) if d == 2]
     m = spec["steps"]
     slots = [(0, False), (0, True), (max(1, m // 2), False), (max(1, m // 2), True), (m, False)]
@@ -411,8 +413,11 @@ def add_controls(spec, rng):
     for k, (step, post) in enumerate(slots):
         site = qubits[(k + rng.randrange(len(qubits))) % len(qubits)]
         ctl.append([site, step, post, enc(lib[names[k % 3]])])
+    # stacked on the same slot: two non-commuting maps, neither of which forgets its input
     site, step, post, _ = ctl[2]
-    ctl.append([site, step, post, enc(lib[rng.choice(names)])])      # stacked on the same slot
+    ctl[2][3] = enc(lib["yrot"])
+    ctl.append([site, step, post, enc(lib["ampdamp"])])
+    ctl.append([site, step, post, enc(lib["xrot"])])
     spec["controls"] = ctl
     return spec
 
@@ -433,6 +438,7 @@ def oracle_uncoupled(spec, real=None):
         if err > 1e-8:
             bad.append(("%suncoupled chain%s: site %d differs from its single-site computation"
                         % ("homogeneous " if spec.get("homogeneous") else "",
+                           " of non-Hermitian operators" if spec.get("nonhermitian") else
                            " with ChainControl" if spec.get("controls") else "", j),
                         {"spec": spec, "site": j, "max_abs_difference": err}))
     return bad
@@ -450,6 +456,7 @@ def oracle_dense(spec, real=None, what="two-site"):
         if err > 1e-8:
             bad.append(("%s%s chain%s: sites %s differ from the propagator of the full Liouvillian"
                         % ("homogeneous " if spec.get("homogeneous") else "", what,
+                           " of non-Hermitian operators" if spec.get("nonhermitian") else
                            " with ChainControl" if spec.get("controls") else
                            " inspected between steps" if spec.get("inspect") else
                            " re-initialised after changing the %s" % spec["reinit"]
@@ -491,7 +498,7 @@ def oracle_norm(spec, real=None):
     tol = 1e-6 if any(p is not None and p["kind"] == "tempo" for p in spec["pts"]) else \
         max(1e-9, 50 * spec["epsrel"])
     err = float(np.abs(real["norm"] - 1.0).max())
-    if err > tol:
+    if err > tol and not spec.get("nonhermitian"):
         what = "norm drifts from one"
         if spec.get("controls"):
             what += " (chain with ChainControl)"
@@ -1108,6 +1115,9 @@ def correspondence(res, tier, rng):
                                   [0, 1, False, enc(damp)]]
     add_controls(dense_specs[0], rng)
     add_controls(dense_specs[3], rng)
+    nh = nonherm_specs(rng)[0][1]
+    nh["epsrel"] = 1e-12
+    dense_specs.append(nh)
     for spec in dense_specs:
         line, real, b = dense_line(spec)
 
@@ -1123,7 +1133,8 @@ def correspondence(res, tier, rng):
             # gates carry the round-off of expm and the truncation epsrel of their SVD split,
             # PT-TEMPO process tensors their own truncation)
             tol = {"gate": 1e-9, "ctrl": 1e-12, "pt": 1e-9}
-            badh = {k: v for k, v in hyp.items() if v > tol.get(k, 1e-9)}
+            badh = {k: v for k, v in hyp.items() if v > tol.get(k, 1e-9)
+                    and not (k == "ctrl" and spec.get("nonhermitian"))}   # rho -> A rho is not TP
             res.hyp_max = {k: max(v, getattr(res, "hyp_max", {}).get(k, 0.0)) for k, v in hyp.items()}
             if sorted(hyp) != ["ctrl", "gate", "pt"]:
                 return False, "no hypothesis residuals in the answer"
@@ -1222,6 +1233,7 @@ def correspondence(res, tier, rng):
                                     sites=[0, 1, 2, 3, [0, 1], [1, 3], [0, 1, 3], [1, 2, 3]])))
     rel += homogeneous_specs(rng, tempo)
     rel += control_specs(rng, tempo)
+    rel += nonherm_specs(rng)
     if tier != "quick":
         for _ in range(6):
             n = rng.choice([2, 3, 4, 5])
@@ -1321,6 +1333,25 @@ def oracle_reinit(a, b_spec, change):
     return bad
 
 
+def nonherm_specs(rng):
+    """the propagation is linear on operators: NON-Hermitian initial site matrices (sigma_+ rho)
+    and left-multiplication controls rho -> A rho"""
+    out = []
+    sp = np.array([[0, 1], [0, 0]], dtype=complex)
+    for n, kind, order in ((2, "coupled", 2), (3, "commuting", 1)):
+        spec = gen_spec(rng, n, kind, order, steps=3, epsrel=1e-10,
+                        sites=list(range(n)) + [[0, 1]] + ([[1, 2], [0, 1, 2]] if n == 3 else []))
+        rho = dec(spec["rho0"][0])
+        spec["rho0"][0] = enc(sp @ (rho + 0.3 * np.eye(2)))
+        a = np.eye(2) + 0.5 * _nonnormal(rng, 2)          # invertible: the state never vanishes
+        a2 = np.eye(2) + 0.5 * _nonnormal(rng, 2)
+        spec["controls"] = [[n - 1, 2, False, enc(np.kron(a, np.eye(2)))],
+                            [0, 1, True, enc(np.kron(a2, np.eye(2)))]]
+        spec["nonhermitian"] = True
+        out.append(("two-site" if n == 2 else "commuting", spec))
+    return out
+
+
 def control_specs(rng, tempo):
     """chains WITH a ChainControl of non-symmetric superoperators"""
     z = dict(tempo, axis="z")
@@ -1368,6 +1399,7 @@ def search(res, rng=None):
     todo = [("coupled", spec) for spec, _ in getattr(res, "hyp_violations", [])[:3]]
     todo += homogeneous_specs(rng, tempo)
     todo += control_specs(rng, tempo)
+    todo += nonherm_specs(rng)
     sm = np.array([[0, 0], [1, 0]], dtype=complex)
     for n, (opl, opr_), g in ((3, (sm, sm.T), 0.9), (2, (sm, sm), 1.2)):
         spec = gen_spec(rng, n, "coupled", 2, steps=3, epsrel=1e-10, nn_dissipation=False,
